@@ -149,6 +149,13 @@ func (in *interp) stmts(t *rapid.T, env map[string]any, list []*SX) any {
 			t.Cleanup(func() { in.stmts(t, map[string]any{}, body) })
 		case "ctx":
 			in.ctxEvent(t)
+		case "ctxlive": // the context of the invocation must be live in the body
+			n := atoi(s.List[1])
+			in.ctxEvent(t)
+			if t.Context().Err() != nil {
+				in.signal(s)
+				callSite(n, func() { t.Fatalf("f%d", n) })
+			}
 		case "goerror": // Errorf from another goroutine, joined before continuing
 			in.signal(s)
 			done := make(chan struct{})
